@@ -72,6 +72,8 @@ def alphabet(tier):
         {"s": A, "op": "move", "set": "2", "dst": "a"},
         {"s": "env", "op": "deliver", "m": "INBOX"},
         {"s": "env", "op": "poll", "dt": 21.0},
+        # a delivery within the second of the folder's mtime, then idle time (the pack opportunity), then the mtime advances
+        {"s": "env", "op": "latent", "m": "INBOX", "then": {"s": "env", "op": "poll", "dt": 21.0}},
         {"s": "env", "op": "restart"},
         {"s": A, "op": "rename", "m": "a", "to": "c"},
         {"s": A, "op": "select", "m": "INBOX"},
@@ -94,6 +96,7 @@ def run(tier, seed, jobs):
         plans.append({"cfg_ref": ("vf.props.c03", "cfg", [4]), "alphabet": alphabet(tier), "depth": 3, "label": "INBOX(4)"})
     core = [{"s": "A", "op": "del", "set": "1"}, {"s": "A", "op": "del", "set": "*"}, {"s": "A", "op": "append", "m": "INBOX"},
             {"s": "env", "op": "deliver", "m": "INBOX"}, {"s": "env", "op": "poll", "dt": 21.0},
+            {"s": "env", "op": "latent", "m": "INBOX", "then": {"s": "env", "op": "poll", "dt": 21.0}},
             {"s": "B", "op": "fetch", "set": "1:*", "items": SUBJ, "uid": True}]
     plans.append({"cfg_ref": ("vf.props.c03", "cfg", [3]), "alphabet": core, "depth": 5 if tier == "quick" else 6, "label": "INBOX(3), core alphabet, deep"})
     plans.append({"cfg_ref": ("vf.props.c03", "cfg_tree", []), "alphabet": alphabet_tree(tier), "depth": 3 if tier == "quick" else 4,
